@@ -99,6 +99,8 @@ type srvBackend struct {
 	gauges map[string]bool
 	events map[string]int
 	parser map[string]float64 // latest parser.* gauges of the server's own statser
+	churn  int64              // sum of every flushed verif.churn counter
+	calls  int
 }
 
 func (b *srvBackend) Name() string { return fmt.Sprintf("verif-srv-%d", b.idx) }
@@ -116,7 +118,13 @@ func (b *srvBackend) SendMetricsAsync(ctx context.Context, mm *gostatsd.MetricMa
 			}
 		}
 	})
-	mm.Counters.Each(func(name, tk string, c gostatsd.Counter) { n += len(c.Tags) })
+	var churn int64
+	mm.Counters.Each(func(name, tk string, c gostatsd.Counter) {
+		n += len(c.Tags)
+		if strings.HasSuffix(name, "verif.churn") {
+			churn += c.Value
+		}
+	})
 	mm.Timers.Each(func(name, tk string, t gostatsd.Timer) { n += len(t.Values) + len(t.Percentiles) })
 	mm.Sets.Each(func(name, tk string, s gostatsd.Set) { n += len(s.Values) })
 	b.mu.Lock()
@@ -126,6 +134,8 @@ func (b *srvBackend) SendMetricsAsync(ctx context.Context, mm *gostatsd.MetricMa
 	for k, v := range parserVals {
 		b.parser[k] = v
 	}
+	b.churn += churn
+	b.calls++ // last: whoever sees the call sees what it carried
 	b.mu.Unlock()
 	cb(nil)
 }
@@ -144,6 +154,11 @@ func (b *srvBackend) hasGauge(suffix string) bool {
 		}
 	}
 	return false
+}
+func (b *srvBackend) flushed() (churn int64, calls int) {
+	b.mu.Lock()
+	defer b.mu.Unlock()
+	return b.churn, b.calls
 }
 func (b *srvBackend) accounted() (metrics, events, bad float64) {
 	b.mu.Lock()
@@ -415,6 +430,44 @@ func runServerScript(r *mon.Run, sc *srvConfig, steps []srvStep, second bool) (s
 		return "events-not-delivered"
 	}
 	r.Event("server_events_delivered", len(events)*len(bes))
+	// Nothing may still be on its way when the server is stopped (shutdown is not this property's subject, and the
+	// cloud stage hands metrics on from goroutines of its own): every datagram of the second stream has come out of a
+	// flush, every sender of the script has been resolved (a last gauge from each has come out), and after that every
+	// worker has flushed twice more.
+	if n := churned.Load(); n > 0 {
+		if !mon.WaitUntil(serverWatchdog, func() bool { c, _ := bes[0].flushed(); return c >= n }) {
+			return "second-stream-not-flushed"
+		}
+		if c, _ := bes[0].flushed(); c != n {
+			r.Violation("lines-unaccounted", fmt.Sprintf("real server (%+v): %d datagrams `verif.churn:1|c` were sent from a rotating pool of senders, the flushed counters add up to %d", *sc, n, c), &replayCase{Phase: "server", Kind: fmt.Sprintf("%+v", *sc), Index: sc.Index})
+		}
+	}
+	if sc.Cloud {
+		for i := 0; i < 40 && i < len(steps); i++ {
+			name := fmt.Sprintf("verif.srv.last%dx%d", sc.Index, i)
+			t := time.NewTimer(serverWatchdog)
+			select {
+			case conn.ch <- srvPkt{msg: []byte(name + ":1|g"), addr: sender(i)}:
+				t.Stop()
+			case <-t.C:
+				return "datagram-not-read(last)"
+			}
+		}
+		if !mon.WaitUntil(serverWatchdog, func() bool {
+			for i := 0; i < 40 && i < len(steps); i++ {
+				if !bes[0].hasGauge(fmt.Sprintf("verif.srv.last%dx%d", sc.Index, i)) {
+					return false
+				}
+			}
+			return true
+		}) {
+			return "sentinel-not-flushed(l)"
+		}
+	}
+	_, c0 := bes[0].flushed()
+	if !mon.WaitUntil(serverWatchdog, func() bool { _, c := bes[0].flushed(); return c >= c0+2*sc.Workers+1 }) {
+		return "flushes-stopped"
+	}
 	return ""
 }
 
